@@ -626,6 +626,49 @@ fn run_probe(base: Instant, c: &ProbeCase) -> ProbeOut {
     }
 }
 
+/// For C03: the handshake datagrams damaged in transit (original lost, a mutated copy arrives
+/// instead, the sender retransmits into whatever state the damaged copy left behind). Returns
+/// (cases run, panics as (description, replay)).
+pub fn damaged_handshake_panics(base: Instant, thorough: bool, dl: Instant) -> (u64, Vec<(String, Value)>, bool) {
+    let mut muts: Vec<InjKind> = vec![];
+    for bit in 0..8 {
+        muts.push(InjKind::Flip { pos: 0, mask: 1 << bit });
+    }
+    for pos in [1i32, 4, 5, 6, 14, 15, 23, 24, 30, 60, 200] {
+        muts.push(InjKind::Flip { pos, mask: 0x01 });
+        muts.push(InjKind::Flip { pos, mask: 0x80 });
+    }
+    for pos in 1..=16 {
+        muts.push(InjKind::Flip { pos: -pos, mask: 0x01 });
+    }
+    for len in [0usize, 1, 6, 7, 20, 22, 26, 27, 40, 100, 600, 1199] {
+        muts.push(InjKind::Truncate { len });
+    }
+    muts.push(InjKind::Extend { n: 1 });
+    let mut cases = vec![];
+    for cfg in ["default", "retry", "cid0", "cid20"] {
+        for after in 0..(if thorough { 12 } else { 6 }) {
+            for m in &muts {
+                cases.push(InjCase { cfg, wl: Wl::W1, after, kind: m.clone() });
+            }
+        }
+    }
+    let n = cases.len() as u64;
+    let (res, capped) = e3(cases, dl, |c| run_replace(base, c));
+    let mut out = vec![];
+    for (c, o) in &res {
+        for (sig, what) in &o.viol {
+            if sig == "panic" {
+                out.push((
+                    format!("cfg={} datagram #{} damaged in transit ({:?}), original lost: {what}", c.cfg, c.after, c.kind),
+                    json!({"check":"c04","kind":"replace","cfg":c.cfg,"after":c.after,"mutation":format!("{:?}",c.kind)}),
+                ));
+            }
+        }
+    }
+    (n, out, capped)
+}
+
 /// Client-side Retry rules (used by C14): forged Retry packets whose integrity tag verifies, at every
 /// step index; a Retry is followed at most once and never after a server packet was accepted.
 pub fn retry_probe_part(rep: &mut Report, base: Instant, thorough: bool, dl: Instant) {
